@@ -1,4 +1,5 @@
 """C13 - canonical form equals the spec transformation; invariant under cosmetic edits."""
+import copy
 import io
 import json
 
@@ -96,6 +97,20 @@ class C13(Check):
         got_p = guard("canonical-form-of-parsed", lambda: cf(fastavro.parse_schema(js)))
         if got_p != want:
             raise Violation("canonical-form-parsed-differs", f"parsed schema gives {got_p!r:.200}, raw gives {want!r:.200}")
+        # a schema that only carries the marker of an earlier parse (files and dumps of older versions: the marker without
+        # the embedded name table) is re-parsed: the marker is one more custom attribute
+        if isinstance(js, dict):
+            legacy = dict(copy.deepcopy(js), __fastavro_parsed=True)
+            labels.add("legacy-marker")
+            gl = guard("canonical-form", cf, legacy)
+            if gl != want:
+                raise Violation("cosmetic-edit-changes-form:legacy-marker", f"with \"__fastavro_parsed\": true added (and no embedded name table) the form is {gl!r:.300}, without it {want!r:.300}")
+            parsed_l = guard("parse-valid-schema", fastavro.parse_schema, js)
+            if isinstance(parsed_l, dict) and "__named_schemas" in parsed_l:
+                stripped = {k: v for k, v in copy.deepcopy(parsed_l).items() if k != "__named_schemas"}
+                gl2 = guard("canonical-form", cf, stripped)
+                if gl2 != want:
+                    raise Violation("cosmetic-edit-changes-form:legacy-parsed", f"the parsed schema without its embedded name table gives {gl2!r:.300}, the raw schema {want!r:.300}")
         # cosmetic variant
         v = case.get("variant")
         if v is not None:
